@@ -141,7 +141,7 @@ func c16Base(i int) (StrategyDef, string) {
 	default: // fully spelled out: every field the defaulted-recogniser inspects is set, so that a
 		// single absent field exposes what the recogniser does not look at
 		return StrategyDef{MaxUnavailable: "1", MaxPodSchedulerFail: "0", SlowStartInterval: "10s", SlowStartIncrease: "1", ReconcileFrequency: "10s", MaxParallel: i32(250),
-			Canary: &CanaryDef{Replicas: "1", Duration: "2m", ValidationMode: "auto", NodeSelector: map[string]string{}, AutoPauseEnabled: bptr(true), AutoPauseMaxRestarts: i32(2), AutoFailEnabled: bptr(true), AutoFailMaxRestarts: i32(5)}}, "auto"
+			Canary: &CanaryDef{Replicas: "1", Duration: "2m", ValidationMode: "auto", NodeSelector: map[string]string{"os": "linux"}, AutoPauseEnabled: bptr(true), AutoPauseMaxRestarts: i32(2), AutoFailEnabled: bptr(true), AutoFailMaxRestarts: i32(5)}}, "auto"
 	}
 }
 
@@ -149,7 +149,7 @@ func genC16(r *rand.Rand, tier string, idx int) *World {
 	lat := c16Lattice()
 	w := &World{Extra: map[string]string{}}
 	for i := 0; i < 3; i++ {
-		w.Nodes = append(w.Nodes, &NodeDef{Name: nodeName(i)})
+		w.Nodes = append(w.Nodes, &NodeDef{Name: nodeName(i), Labels: map[string]string{"os": "linux"}})
 	}
 	var pts []latticePoint
 	nb := c16Bases
